@@ -104,6 +104,7 @@ PROPS = {
     },
     "C06": {
         "design_ref": "DESIGN.md §3 C06",
+        "expected_panics": {"q06_prss_index_from_oversized_u128_mustpanic": ["PRSS indices need to be smaller"]},
         "functions_encoded": ["protocol::prss::internal::PrssIndex128::{new,index,TryFrom<u128>,Into<u64>,Into<u128>}", "protocol::context::validator::Malicious::{u_record,w_record,r_share_record,reveal_check_zero_record}"],
         "bounds": "all 2^32 indices x all usize offsets; all validator batch offsets < 2^28",
         "outside_claim": "every statement about generated VALUES (AES/HKDF/X25519: pairwise agreement, independence); the debug-only UsedSet; absence of repeated (step, index) draws in whole protocol runs; the DZKP per-batch PRSS ranges (constants local to an async fn)",
